@@ -112,7 +112,7 @@ structure Inv (c : Cfg) (s : State) : Prop where
   aCtor : ∀ t is, s.pc t = Pc.cRun is →
     1 ≤ s.held t ∧ s.constructed = false ∧ nCharge is ≤ 1 ∧ (nCharge is = 1 → s.tracerRef = false) ∧
       (s.slot ≠ Slot.ready → s.tracerRef = false → nCharge is = 1) ∧ (CI.loadTmp ∈ is → c.mode.hasPromise = true)
-  aGate : ∀ t, (s.pc t = Pc.hStart ∨ s.pc t = Pc.hGate) → s.held t = if s.constructed then 1 else 0
+  aGate : ∀ t, (s.pc t = Pc.hStart ∨ s.pc t = Pc.hGate) → s.held t = if s.given then 1 else 0
   aDone : ∀ t, s.pc t = Pc.done → s.held t = 0
   aRun : ∀ t a, s.pc t = Pc.rRun a → s.slot = Slot.ready ∧ s.published = true
   aResolve : ∀ t, s.pc t = Pc.rResolve → s.published = true
@@ -153,6 +153,7 @@ structure Inv (c : Cfg) (s : State) : Prop where
   ctorPc : s.constructed = false → isCtor (s.pc 0) = true
   pubPc : s.published = false → c.mode.hasPromise = true → ∀ is, s.pc 0 = Pc.cRun is → CI.loadTmp ∈ is
   pubCtor : s.published = false → c.mode.hasPromise = true → isCtor (s.pc 0) = true
+  givenC : s.constructed = true → s.given = true
 
 macro "inv_facts" h:ident : tactic => `(tactic| (
   have := ($h).pcok
@@ -196,7 +197,8 @@ macro "inv_facts" h:ident : tactic => `(tactic| (
   have := ($h).aPre
   have := ($h).ctorPc
   have := ($h).pubPc
-  have := ($h).pubCtor))
+  have := ($h).pubCtor
+  have := ($h).givenC))
 
 macro "inv_auto" h:ident : tactic => `(tactic| (
   constructor
@@ -241,7 +243,8 @@ macro "inv_auto" h:ident : tactic => `(tactic| (
   case aPre => first | exact ($h).aPre | (have := ($h).aPre; grind [upd, pcOK, preClaim, preResolve, isCtor, inflight, ownsCtx, postCtor]) | (inv_facts $h; grind [upd, pcOK, preClaim, preResolve, isCtor, inflight, ownsCtx, postCtor]) | fail "clause aPre"
   case ctorPc => first | exact ($h).ctorPc | (have := ($h).ctorPc; grind [upd, pcOK, preClaim, preResolve, isCtor, inflight, ownsCtx, postCtor]) | (inv_facts $h; grind [upd, pcOK, preClaim, preResolve, isCtor, inflight, ownsCtx, postCtor]) | fail "clause ctorPc"
   case pubPc => first | exact ($h).pubPc | (have := ($h).pubPc; grind [upd, pcOK, preClaim, preResolve, isCtor, inflight, ownsCtx, postCtor]) | (inv_facts $h; grind [upd, pcOK, preClaim, preResolve, isCtor, inflight, ownsCtx, postCtor]) | fail "clause pubPc"
-  case pubCtor => first | exact ($h).pubCtor | (have := ($h).pubCtor; grind [upd, pcOK, preClaim, preResolve, isCtor, inflight, ownsCtx, postCtor]) | (inv_facts $h; grind [upd, pcOK, preClaim, preResolve, isCtor, inflight, ownsCtx, postCtor]) | fail "clause pubCtor"))
+  case pubCtor => first | exact ($h).pubCtor | (have := ($h).pubCtor; grind [upd, pcOK, preClaim, preResolve, isCtor, inflight, ownsCtx, postCtor]) | (inv_facts $h; grind [upd, pcOK, preClaim, preResolve, isCtor, inflight, ownsCtx, postCtor]) | fail "clause pubCtor"
+  case givenC => first | exact ($h).givenC | (have := ($h).givenC; grind [upd, pcOK, preClaim, preResolve, isCtor, inflight, ownsCtx, postCtor]) | (inv_facts $h; grind [upd, pcOK, preClaim, preResolve, isCtor, inflight, ownsCtx, postCtor]) | fail "clause givenC"))
 
 variable {c : Cfg} {s : State} {t : Nat}
 
